@@ -138,6 +138,26 @@ pub const EXEMPLARS: &[&str] = &[
     "S: A; U: 'x'; terminals A: 'a';",
     "S: A; U: x=A y=A* z=U?; terminals A: /a/;",
     "S: A* A0; A0: 'b'; terminals A: 'a'; B: 'b';",
+    // user symbols named like the helper non-terminals of the repetition sugar
+    "S: A1;\nA1: A+;\nA: Ta;\nterminals\nTa: 'a';\n",
+    "S: A0;\nA0: A*;\nA: Ta;\nterminals\nTa: 'a';\n",
+    "S: AOpt Ta;\nAOpt: A?;\nA: Ta;\nterminals\nTa: 'a';\n",
+    "S: A+ A1;\nA1: Ta A;\nA: Ta;\nterminals\nTa: 'a';\n",
+    "S: A1 A*;\nA1: Ta;\nA0: A;\nA: Ta;\nterminals\nTa: 'a';\n",
+    "S: Ta1;\nTa1: Ta+[Ta];\nterminals\nTa: 'a';\n",
+    // production kinds / names that only look like identifiers
+    "S: B {kind: ' Add'};\nB: Ta;\nterminals\nTa: 'a';\n",
+    "S: B {kind: 'Add '} | B B;\nB: Ta;\nterminals\nTa: 'a';\n",
+    "S: B {kind: '/*x*/Add'};\nB: Ta;\nterminals\nTa: 'a';\n",
+    "S: B {kind: 'r#type'} | B B {Add};\nB: Ta;\nterminals\nTa: 'a';\n",
+    "S: B {kind: ''};\nB: Ta;\nterminals\nTa: 'a';\n",
+    "S: B {kind: 'Add // c'};\nB: Ta;\nterminals\nTa: 'a';\n",
+    "S: B {kind: \"A\\nB\"};\nB: Ta;\nterminals\nTa: 'a';\n",
+    "S: B {kind: 'Self'} | B B {kind: 'crate'};\nB: Ta;\nterminals\nTa: 'a';\n",
+    "S: B {kind: '_'} | B B {kind: '__'};\nB: Ta;\nterminals\nTa: 'a';\n",
+    // integer constants written with non-ASCII decimal digits (\d of the grammar lexer is Unicode-aware)
+    "S {\u{663}}: Ta;\nterminals\nTa: 'a' {\u{967}\u{966}};\n",
+    "S: Ta {\u{ff11}\u{ff12}} | Ta Ta {weight: \u{663}};\nterminals\nTa: 'a';\n",
 ];
 
 const HOSTILE_CHARS: &[&str] = &["{", "}", "[", "]", "(", ")", ":", ";", "|", "*", "+", "?", "!", "=", "?=", "@", "'", "\"", "/", "\\", ",", ".", "0", "9", "a", "Z", "_", " ", "\n", "é", "𝄞", "\u{0}", "*!", "+!", "terminals", "EMPTY", "STOP", "Layout", "import", "left", "nops", "@vec", "99999999999"];
@@ -181,8 +201,70 @@ fn tokens(text: &str) -> Vec<String> {
     out
 }
 
+/// A character of the same Unicode class (\\d, \\w, \\s of the grammar language's own lexer are Unicode-aware).
+fn class_twin(ch: char, rng: &mut Rng) -> Option<char> {
+    if let Some(d) = ch.to_digit(10) {
+        let base = *rng.pick(&[0x0660u32, 0x06F0, 0x0966, 0xFF10, 0x1D7CE, 0x0E50]);
+        return char::from_u32(base + d);
+    }
+    if ch.is_ascii_alphabetic() {
+        return Some(*rng.pick(&['é', 'Ж', 'ß', 'İ', 'ſ', 'ǅ', 'ａ', 'Ａ', 'ª', 'ⅷ', '中', 'ǆ']));
+    }
+    if ch == '_' {
+        return Some(*rng.pick(&['‿', '＿', '⁀']));
+    }
+    if ch.is_whitespace() {
+        return Some(*rng.pick(&['\u{a0}', '\u{85}', '\u{2028}', '\u{3000}', '\u{b}', '\u{c}', '\u{2003}']));
+    }
+    None
+}
+
+const HELPER_SUFFIXES: &[&str] = &["0", "1", "Opt", "Base", "C1", "C2", "Kind", "1Comma", "0Comma", "NoO", "Actions", "Parser"];
+
 pub fn mutate(text: &str, rng: &mut Rng) -> String {
-    if rng.chance(0.5) {
+    let r = rng.below(10);
+    if r == 8 {
+        // look-alikes of the same character class
+        let mut c: Vec<char> = text.chars().collect();
+        for _ in 0..rng.range(1, 3) {
+            let cand: Vec<usize> = (0..c.len()).filter(|&i| c[i].is_ascii_alphanumeric() || c[i] == '_' || c[i].is_whitespace()).collect();
+            // digits are rare in grammar texts: prefer them half of the time
+            let digits: Vec<usize> = cand.iter().cloned().filter(|&i| c[i].is_ascii_digit()).collect();
+            let pool = if !digits.is_empty() && rng.chance(0.5) { &digits } else { &cand };
+            if pool.is_empty() {
+                break;
+            }
+            let i = *rng.pick(pool);
+            if let Some(t) = class_twin(c[i], rng) {
+                c[i] = t;
+            }
+        }
+        return c.into_iter().collect();
+    }
+    if r == 9 {
+        // a user symbol named like a generated helper of another symbol (X0, X1, XOpt, ...)
+        let mut t = tokens(text);
+        let ids: Vec<String> = {
+            let mut v: Vec<String> = t.iter().filter(|w| w.chars().next().is_some_and(|c| c.is_alphabetic()) && !matches!(w.as_str(), "terminals" | "EMPTY" | "STOP" | "Layout" | "left" | "right" | "reduce" | "shift" | "nops" | "nopse" | "import" | "as" | "vec")).cloned().collect();
+            v.sort();
+            v.dedup();
+            v
+        };
+        if ids.len() >= 2 {
+            let w = rng.pick(&ids).clone();
+            let v = rng.pick(&ids).clone();
+            if v != w {
+                let nn = format!("{}{}", w, rng.pick(HELPER_SUFFIXES));
+                for x in t.iter_mut() {
+                    if *x == v {
+                        *x = nn.clone();
+                    }
+                }
+            }
+        }
+        return t.concat();
+    }
+    if r < 4 {
         let mut t = tokens(text);
         for _ in 0..rng.range(1, 3) {
             if t.is_empty() {
